@@ -6,6 +6,34 @@ open Juniper.Model.Helpers
 
 variable {α : Type}
 
+/-! ## 64-bit arithmetic: `wrap64` is the identity exactly on the `int64` range -/
+
+open Juniper.Facts in
+theorem wrap64_of_range {x : Int} (h1 : -9223372036854775808 ≤ x) (h2 : x ≤ 9223372036854775807) :
+    wrap64 x = x := by
+  unfold wrap64; omega
+
+open Juniper.Facts in
+/-- `wrap64` of a natural number that fits in an `int` -/
+theorem wrap64_nat {n : Nat} (h : n ≤ 9223372036854775807) : wrap64 (n : Int) = (n : Int) :=
+  wrap64_of_range (by omega) (by omega)
+
+open Juniper.Facts in
+theorem wrap64_range (x : Int) : -9223372036854775808 ≤ wrap64 x ∧ wrap64 x ≤ 9223372036854775807 := by
+  unfold wrap64; omega
+
+open Juniper.Facts in
+/-- a sum that overflows upwards wraps to the negative side -/
+theorem wrap64_overflow_pos {x : Int} (h1 : 9223372036854775808 ≤ x) (h2 : x < 18446744073709551616) :
+    wrap64 x = x - 18446744073709551616 := by
+  unfold wrap64; omega
+
+open Juniper.Facts in
+/-- a difference that overflows downwards wraps to the positive side -/
+theorem wrap64_overflow_neg {x : Int} (h1 : -18446744073709551616 ≤ x) (h2 : x < -9223372036854775808) :
+    wrap64 x = x + 18446744073709551616 := by
+  unfold wrap64; omega
+
 theorem getI_nat (s : List α) (n : Nat) : getI s (n : Int) = s[n]? := by
   unfold getI
   have : ¬ ((n : Int) < 0) := by omega
